@@ -49,6 +49,11 @@ _NOEX = set(filter(None, os.environ.get("VERIF_NO_EXCLUDE", "").split(",")))
 EXCLUDE_DIAG = ((is_open("C13-mask-hole-on-diagonal") or is_open("C12-axis-outside-lcfs"))
                 and not ({"C13-mask-hole-on-diagonal", "C12-axis-outside-lcfs", "all"} & _NOEX))
 
+# returned-vector aliasing (raysect Constant2D returns its own Vector3D) and numeric profiles (docstring `v_normal = 0.0`):
+# the "mutate" step / the "float" profile kind are generated only once these findings are closed
+EXCLUDE_ALIAS = is_open("C12-constant-vector-aliased") and not ({"C12-constant-vector-aliased", "all"} & _NOEX)
+EXCLUDE_FLOAT = is_open("C12-scalar-profile-rejected") and not ({"C12-scalar-profile-rejected", "all"} & _NOEX)
+
 SAFETY = 2.0          # factor on the a-priori interpolation bounds (guide: <= 3)
 LEBESGUE = 1.25       # sup-norm of the 1-D finite-difference Hermite operator (interior 1.25 at t=1/2, edge cells <= 1.148)
 EDGE_MARGIN = 1e-9    # * polygon size: points closer than this to a polygon edge accept either value
@@ -138,7 +143,29 @@ REQUIRED_LABELS = [l for l in [
     "vector:symmetric:negative", "vector:symmetric:positive", "vector:one-zero",
     "vector:eq:example", "vector:eq:generomak", "vector:eq:synth:ellipse", "vector:eq:synth:solovev",
     "vector:sign:negative", "vector:sign:positive", "vector:outside:none", "vector:outside:vector", "vector:phi!=0",
-] if not _ONLY or l.split(":")[0] in _ONLY]
+    # (a) forms
+    "scalar:form:c", "scalar:form:lists", "scalar:form:tuples-fortran", "scalar:form:strided-ints", "scalar:form:keywords",
+    "scalar:profile:array-form:list", "scalar:profile:array-form:tuple", "scalar:profile:array-form:ndarray",
+    "scalar:profile:array-form:f-order", "scalar:profile:array-form:strided", "scalar:profile:array-form:f32",
+    "scalar:profile:array-form:int", "scalar:coords:int", "scalar:outside:int", "scalar:outside:keyword", "scalar:outside:default",
+    "api:twin:f32", "api:twin:f32-all", "api:twin:int-profiles", "api:twin:nested-tuples",
+    # (b) magic values
+    "scalar:profile:zero", "scalar:profile:const", "scalar:profile:array-zeros", "scalar:psi_n==0-inside",
+    "scalar:grid:small", "scalar:polygon:small", "scalar:x-points", "scalar:phi:x<0,y=+-0",
+    "vector:zero-component:vn", "vector:zero-component:vp", "vector:zero-component:vt", "vector:phi:x<0,y=+-0", "basis:phi:x<0,y=+-0",
+    "api:mask:psi_n==1", "api:helper:one-zero", "api:helper:zero-field",
+    # (c) re-use
+    "scalar:reuse", "vector:reuse",
+    # (e) entry points of the anchored files
+    "scalar:entry:psi_normalised", "scalar:entry:map2d", "scalar:entry:map3d",
+    "basis:entry:b_field", "basis:entry:toroidal_vector", "basis:entry:poloidal_vector", "basis:entry:surface_normal",
+    "vector:entry:map_vector2d", "vector:entry:map_vector3d",
+    "api:entry:EFITEquilibrium", "api:entry:attributes", "api:entry:psi", "api:entry:inside_lcfs", "api:entry:inside_limiter",
+    "api:entry:inside_limiter:none", "api:entry:f_profile", "api:entry:q", "api:entry:psin_to_r", "api:entry:example_equilibrium",
+    "api:entry:load_equilibrium", "api:entry:EFITLCFSMask", "api:entry:MagneticField", "api:entry:PoloidalFieldVector",
+    "api:entry:FluxSurfaceNormal", "api:entry:FluxCoordToCartesian",
+] + ([] if EXCLUDE_FLOAT else ["vector:profile:float"]) + ([] if EXCLUDE_ALIAS else ["vector:mutate-returned", "basis:mutate-returned"])
+ if not _ONLY or l.split(":")[0] in _ONLY]
 
 
 # ================================================================================================ strategies
@@ -227,8 +254,6 @@ def _knots(draw):
 
 
 ARRAY_FORMS = ["list", "tuple", "ndarray", "ndarray", "f-order", "strided", "f32", "int"]
-EXCLUDE_ALIAS = is_open("C12-constant-vector-aliased") and not ({"C12-constant-vector-aliased", "all"} & _NOEX)
-EXCLUDE_FLOAT = is_open("C12-scalar-profile-rejected") and not ({"C12-scalar-profile-rejected", "all"} & _NOEX)
 
 
 @st.composite
@@ -772,6 +797,14 @@ def _eq_labels(ctx, b):
     ctx.label("eq:" + b.name, "sign:negative" if b.dpsi < 0 else "sign:positive")
     if b.spec.get("sym", False):
         ctx.label("symmetric:negative" if b.dpsi < 0 else "symmetric:positive")
+    if b.synth is not None:
+        ctx.label("form:" + b.spec.get("form", "c"))
+        if min(b.spec["nr"], b.spec["nz"]) < 20:
+            ctx.label("grid:small")
+        if b.spec["nrays"] < 64:
+            ctx.label("polygon:small")
+        if b.spec.get("nxp", 0) > 0:
+            ctx.label("x-points")
     if b.spec["kind"] != "synth" and not (b.spec["s"] == 1.0 and b.spec["c"] == 0.0):
         ctx.label("eq:affine-variant")
 
@@ -1168,11 +1201,12 @@ def run_vector(case, ctx):
             ctx.check(ok, "map_vector3d", lambda: "map_vector3d(%r, %r, %r) = %r but Rz(%r rad) map_vector2d(%r, %r) = Rz %r = %r [eq=%s]"
                       % (xi, yi, zi, g3.tolist(), a, rr, zi, g2.tolist(), want.tolist(), json.dumps(b.spec)))
     # re-use: vectors returned earlier are intact, a second pass with the same function object reproduces them bit for bit
-    for ri, zi, gobj, snap in kept:
-        with ctx.cut("map_vector2d re-use"):
-            again = _v(f2(ri, zi))
+    for ri, zi, gobj, snap in kept:      # first the objects handed out earlier (before anything is evaluated again) ...
         ctx.check(np.array_equal(_v(gobj), snap), "reuse", lambda: "a vector returned earlier for (%r, %r) changed from %r to %r while the function "
                   "was evaluated elsewhere" % (ri, zi, snap.tolist(), _v(gobj).tolist()))
+    for ri, zi, gobj, snap in kept:      # ... then a second pass
+        with ctx.cut("map_vector2d re-use"):
+            again = _v(f2(ri, zi))
         ctx.check(np.array_equal(again, snap), "reuse", lambda: "map_vector2d(..)(%r, %r) = %r on the second pass, %r on the first"
                   % (ri, zi, again.tolist(), snap.tolist()))
     ctx.label("reuse")
@@ -1331,7 +1365,7 @@ def run_api(case, ctx):
         bp = math.hypot(fx, fz)
         with ctx.cut("helper classes"):
             pv, nv = _v(PoloidalFieldVector(field)(1.5, 0.25)), _v(FluxSurfaceNormal(field)(1.5, 0.25))
-            cv = _v(FluxCoordToCartesian(field, lambda a_, b_: pn, profs[0][0], profs[1][0], profs[2][0])(1.5, 0.25))
+            cv = _v(FluxCoordToCartesian(field, lambda a_, b_: pn, profs[0][1], profs[1][1], profs[2][1])(1.5, 0.25))
         comp = [p_[1](pn) for p_ in profs]
         if bp == 0.0:
             wp, wn, wc = np.zeros(3), np.zeros(3), np.array([0.0, comp[0], 0.0])
@@ -1361,5 +1395,5 @@ SUBCHECKS = {
     "scalar": Given(scalar_strategy, run_scalar, quick=480, thorough=16000),
     "basis": Given(basis_strategy, run_basis, quick=240, thorough=8000),
     "vector": Given(vector_strategy, run_vector, quick=240, thorough=8000),
-    "api": Given(api_strategy, run_api, quick=160, thorough=4000),
+    "api": Given(api_strategy, run_api, quick=120, thorough=3000),
 }
